@@ -147,3 +147,13 @@ Fixpoint e5_depth (i : e5item) : nat :=
   | EL l => S (fold_right (fun x m => Nat.max (e5_depth x) m) O l)
   | _ => 1%nat
   end.
+
+(* the narrowest standard integer format that holds z (unsigned for non-negative values) *)
+Inductive e5num := NU (w : e5int) | NI (w : e5int).
+Definition e5_narrowest (z : Z) : option e5num :=
+  if (0 <=? z)%Z then
+    if (z <? 2^8)%Z then Some (NU W1) else if (z <? 2^16)%Z then Some (NU W2) else if (z <? 2^32)%Z then Some (NU W4)
+    else if (z <? 2^64)%Z then Some (NU W8) else None
+  else
+    if (- 2^7 <=? z)%Z then Some (NI W1) else if (- 2^15 <=? z)%Z then Some (NI W2) else if (- 2^31 <=? z)%Z then Some (NI W4)
+    else if (- 2^63 <=? z)%Z then Some (NI W8) else None.
